@@ -144,6 +144,10 @@ def check(ctx):
     B = [dict(e) for e in ens]
     ctx.run(B, "run_seeds", rule="B: per ensemble spec all compositions of the ensemble axis x {eager blocks, lazy blocks}, single-seed regeneration, "
             "reversed order, to_atoms_ensemble", space="B seeds")
+    # P: the same statement for the PRISM route: an S-matrix built from the ensemble and reduced must equal the per-configuration S-matrix runs
+    P = [{"kind": k, "n": n, "sigma": "scalar", "dir": "xyz", "seed": 0, "mean": False, "interp": ip, "route": r}
+         for k, n in (("fp", 2), ("fp", 3), ("ae", 2)) for ip in (1, 2) for r in ("build-eager-reduce", "reduce-eager", "reduce-lazy", "build-lazy-compute-reduce")]
+    ctx.run(P, "run_prism", rule="P: PRISM (interpolation 1, 2) x 4 build / reduce routes vs per-configuration S-matrix runs", space="P prism")
     # H: histories on ONE FrozenPhonons + Potential object pair: whatever was done with it before (iterated, built eagerly / lazily, used in
     # an eager or lazy multislice, partitioned), the next use gives what a fresh object gives
     H = [{"kind": kind, "n": n, "first": f, "depth": 3 if q else 4} for kind in ("fp", "ae") for n in (2, 3) for f in range(len(HEVENTS))]
@@ -180,6 +184,45 @@ def run_members(c):
             viol.append({"key": "values/%s/%s" % (tag, "lazy" if c["lazy"] else "eager"), "msg": "output %d differs from the independent runs: max|d| = %.3g on %.3g, per configuration %r (%s)" % (
                 i, float(np.abs(garr - want).max()), float(np.abs(want).max()), per, c)})
     return {"viol": viol, "obs": U.result_digest(got), "nt": c["n"] >= 2, "tr": 1 + len(refs), "ref": len(got), "err": worst}
+
+
+def run_prism(c):
+    import abtem
+    from mc import universe as U
+    from mc.compare import err
+
+    ens = make_ensemble(c)
+    configs = list(make_ensemble(c))
+    kw = dict(gpts=(24, 24), slice_thickness=2.0)
+    skw = dict(semiangle_cutoff=20.0, energy=100e3, interpolation=c["interp"], downsample=False)
+    scan = lambda: abtem.CustomScan([[0.3, 0.4], [2.1, 1.7], [3.6, 2.9]])  # noqa: E731
+
+    def reduce(pot):
+        S = abtem.SMatrix(potential=pot, **skw)
+        r = c["route"]
+        if r == "build-eager-reduce":
+            out = S.build(lazy=False).reduce(scan=scan())
+        elif r == "reduce-eager":
+            out = S.reduce(scan=scan(), lazy=False)
+        elif r == "reduce-lazy":
+            out = S.reduce(scan=scan(), lazy=True)
+        else:
+            out = S.build(lazy=True).compute().reduce(scan=scan())
+        out = out.compute() if getattr(out, "is_lazy", False) else out
+        return np.asarray(out.array)
+
+    got = reduce(abtem.Potential(ens, **kw))
+    refs = np.stack([np.asarray(abtem.SMatrix(potential=abtem.Potential(a, **kw), **skw).reduce(scan=scan(), lazy=False).array) for a in configs])
+    viol = []
+    if got.shape != refs.shape:
+        viol.append({"key": "prism/shape", "msg": "PRISM ensemble result has shape %r, the stacked per-configuration results %r (%s)" % (got.shape, refs.shape, c)})
+        return {"viol": viol}
+    e = err(got, refs, RTOL, atol=1e-30)
+    if not e <= 1.0:
+        per = [float(np.abs(got[k] - refs[k]).max()) for k in range(len(refs))]
+        viol.append({"key": "prism/values/%s" % c["route"], "msg": "PRISM (interpolation %d, route %s): ensemble members differ from the per-configuration runs by %r on max %.3g (%s)" % (
+            c["interp"], c["route"], per, float(np.abs(refs).max()), c)})
+    return {"viol": viol, "obs": "prism", "nt": True, "tr": 1 + len(configs), "ref": len(configs), "err": e}
 
 
 def _atoms_key(a):
